@@ -818,14 +818,18 @@ impl MemoryLoc {
                     if self.offset != 0 {
                         addr = builder.ins().iadd_imm(addr, self.offset as i64);
                     }
+                    // only `size` bytes belong to the value; the bytes between `size` and
+                    // `stride` can belong to the next field or local.
+                    // `emit_small_memory_copy` wants an alignment that divides the size
+                    let size = ty.size() as u64;
+                    let align = (ty.align() as u64).min(1 << size.trailing_zeros().min(3)) as u8;
                     builder.emit_small_memory_copy(
                         module.target_config(),
                         addr,
                         val,
-                        // this has to be stride for some reason, it can't be size
-                        ty.stride() as u64,
-                        ty.align() as u8,
-                        ty.align() as u8,
+                        size,
+                        align,
+                        align,
                         true,
                         MemFlags::trusted(),
                     )
@@ -836,7 +840,7 @@ impl MemoryLoc {
                     let mut off = 0;
                     macro_rules! mem_cpy_loop {
                         ($width:expr) => {
-                            while (off + $width) <= (ty.stride() as i32 / $width) * $width {
+                            while (off + $width) <= (ty.size() as i32 / $width) * $width {
                                 let bytes = builder.ins().load(
                                     cranelift::codegen::ir::Type::int_with_byte_size($width)
                                         .unwrap(),
